@@ -392,7 +392,7 @@ package core
 // The scanned tree (core.directives) is read by the scanning phase, by the macro collection, by the expansion (which copies it
 // into directivesWithPastes) and by the rule collection (ENUMs outside macros); every later phase works on the expanded
 // tree. A phase that walked the scanned tree instead would see PASTE nodes where the expanded text has directives (C10).
-//@ confined JApiCore.directives readers processCurrentDirective, collectMacro, processPaste, collectRules, NewJApiCore property C10,C05
+//@ confined JApiCore.directives readers processCurrentDirective, collectMacro, processPaste, collectRules, NewJApiCore property C10,C05,C17
 // gListCtx / gWalks (ghost): the context cursor as the last completed walk over a directive list left it, and how many
 // walks have completed. Assumed of the walk (trusted): it never changes the HasExplicitContext flag of a directive nor
 // the Parent of a directive that existed before it started (a copy is attached once, when it is created).
